@@ -173,6 +173,14 @@ def return_scope(F, rep):
     for g, c in F.callers_of(pushers):
         if len(c.args) < 2 or op_local(c.args[1]) is None:
             continue
+        # a block starts out *owing* its return: its starting status is computed afresh, never the final status of a finished sibling block
+        stale = [oc for oc in rules.origin_calls(g, op_local(c.args[1]), transparent=rules.TRANSPARENT | {"core::option::Option::map_or_else", "core::option::Option::map_or",
+                                                                                                         "core::option::Option::map", "core::option::Option::unwrap_or"})
+                 if oc.matches("compiler::scope::ScopeHandle::consume")]
+        rep.ob("C03.return-scope", "%s opens its %s scope with a fresh return status" % (mir.short(g.path), mir.short(c.callee()).split("::")[-1].replace("push_", "").replace("_typed", "")),
+               "violated" if stale else "ok",
+               "the scope starts with the status another block ended with (ScopeHandle::consume at %s): if that block returned, this one counts as returning without a `return`" % stale[0].span if stale else "",
+               c.span, fn=g.path, key="C03.return-scope|fresh-status|%s|%s" % (mir.short(g.path), mir.short(c.callee())))
         for oc in rules.origin_calls(g, op_local(c.args[1]), transparent=rules.TRANSPARENT | {"core::option::Option::map_or_else", "core::option::Option::map_or",
                                                                                               "core::option::Option::map", "core::option::Option::unwrap_or"}):
             f2 = F.fn(oc.callee())
